@@ -154,7 +154,7 @@ def gen_case(rng, i):
     if rng.random() < 0.25 and len(ids) > 3:
         edges = [e for e in edges if e['obj'] != PURL + ids[0]] or edges     # several roots -> owl:Thing
     for _ in range(rng.randint(0, 4)):
-        kind = rng.choice(['pred', 'dangling', 'foreign', 'nonpurl', 'ignored-type'])
+        kind = rng.choice(['pred', 'dangling', 'foreign', 'nonpurl', 'ignored-type', 'mirror', 'trailing', 'embedded'])
         a, b = rng.choice(ids), rng.choice(ids)
         if kind == 'pred':
             edges.append({'sub': PURL + a, 'pred': rng.choice(['http://purl.obolibrary.org/obo/BFO_0000051', 'subPropertyOf', 'is_A']), 'obj': PURL + b})
@@ -165,6 +165,17 @@ def gen_case(rng, i):
                          if rng.random() < 0.5 else {'sub': PURL + a, 'pred': 'is_a', 'obj': PURL + rng.choice(['MP_0000001', 'HPO_0000003', 'hp_0000006'])})
         elif kind == 'nonpurl':
             edges.append({'sub': 'http://example.org/x', 'pred': 'is_a', 'obj': PURL + b})
+        elif kind in ('mirror', 'embedded'):
+            # not an OBO PURL, but it ENDS with (or contains) the CURIE of a retained term: must be ignored
+            odd_end = ('http://example.org/mirror/' + a) if kind == 'mirror' else ('x' + PURL + a)
+            edges.append({'sub': odd_end, 'pred': 'is_a', 'obj': PURL + b} if rng.random() < 0.5 else {'sub': PURL + b, 'pred': 'is_a', 'obj': odd_end})
+        elif kind == 'trailing':
+            # an OBO PURL of a retained term followed by more text: the pattern still matches its CURIE
+            tr = PURL + a + rng.choice(['#x', '/v2', '.owl', '?q=1'])
+            if a != b and ids.index(a) > ids.index(b):
+                edges.append({'sub': tr, 'pred': 'is_a', 'obj': PURL + b})
+            elif a != b:
+                edges.append({'sub': PURL + b, 'pred': 'is_a', 'obj': tr})
         else:
             edges.append({'sub': PURL + 'HP_0100001', 'pred': 'is_a', 'obj': PURL + b})
     rng.shuffle(edges)
